@@ -439,6 +439,23 @@ def formatExtern (ext : Ext) (explicitAbi : Bool) : Str :=
     if abi == cs% "C" && !explicitAbi then cs% "extern "
     else cs% "extern \"" ++ abi ++ cs% "\" "
 
+/-- `format_extern` read off a list of arms (variant, guard, kind of result, literal text), first match: the GENERATED
+`RF.Gen.Keywords.externArms` is run through this -/
+def externFromArms (arms : List (Str × Str × Str × Str)) (ext : Ext) (explicitAbi : Bool) : Option Str :=
+  let variant : Str := match ext with | .none => cs% "none" | .implicit => cs% "implicit" | .explicit _ => cs% "explicit"
+  let abi : Str := match ext with | .explicit a => a | _ => []
+  let holds (g : Str) : Bool :=
+    if g == cs% "always" then true
+    else if g == cs% "explicitAbi" then explicitAbi
+    else if g == cs% "abiIsCAndNotExplicit" then abi == cs% "C" && !explicitAbi
+    else false
+  match arms.find? (fun a => a.1 == variant && holds a.2.1) with
+  | some (_, _, kind, text) =>
+    if kind == cs% "lit" then some text
+    else if kind == cs% "quoteAbi" then some (cs% "extern \"" ++ abi ++ cs% "\" ")
+    else none
+  | none => none
+
 /-- the ABI a qualifier selects (`extern` alone is `extern "C"`) -/
 def Ext.den : Ext → Option Str
   | .none => Option.none
